@@ -19,6 +19,7 @@ mod suite_entity;
 mod suite_ffixed;
 mod suite_fanyorder;
 mod suite_fanyorder2;
+mod suite_fanyorder3;
 mod suite_fmap;
 mod suite_fclone;
 mod suite_fidx;
@@ -90,6 +91,7 @@ fn main() {
         "fws" => suite_fws::run(seed, count, tier, &mut sink),
         "scope" => suite_scope::run(seed, count, tier, &mut sink),
         "ffixed" => suite_ffixed::run(seed, count, tier, &mut sink),
+        "fanyorder3" => suite_fanyorder3::run(seed, count, tier, &mut sink),
         "html" => suite_html::run(seed, count, tier, &mut sink),
         "fmap" => suite_fmap::run(seed, count, tier, &mut sink),
         "build" => suite_build::run(seed, count, tier, &mut sink),
